@@ -924,7 +924,9 @@ def parse_as_ast(
 
     else:
         assert isinstance(ast_source, ast.AST)
-        return lambda_unwrap(ast_source)
+        # The caller keeps its tree: the passes that follow edit the lambda in place, and the same
+        # tree may be handed to another stream.
+        return lambda_unwrap(copy.deepcopy(ast_source))
 
 
 def scan_for_metadata(a: ast.AST, callback: Callable[[ast.arg], None]):
